@@ -35,12 +35,12 @@ func (r Result) String() string {
 
 // Stats are accumulated per solver.
 type Stats struct {
-	Queries  int
-	Sat      int
-	Unsat    int
-	Unknown  int
-	Time     time.Duration
-	Restarts int
+	Queries   int
+	Sat       int
+	Unsat     int
+	Unknown   int
+	Time      time.Duration
+	Restarts  int
 	ModelTime time.Duration
 }
 
